@@ -570,3 +570,35 @@ Example same_lane_inhabited :
   saturates (VInt 7) = false /\ saturates (VFloat 4621256167635550208) = false /\
   lane_of (VInt 7) = Some LI /\ lane_of (VFloat 4621256167635550208) = Some LI.
 Proof. repeat split; vm_compute; reflexivity. Qed.
+
+(** completeness of the integrality test: a finite double whose scaled magnitude is a multiple
+    of 2^1074 (i.e. whose value is an integer) is recognised *)
+Lemma f_int_mag_complete : forall b mag, b < 2 ^ 64 -> f_is_finite b = true ->
+  f_mag_scaled b = mag * 2 ^ 1074 -> f_int_mag b = Some mag.
+Proof.
+  intros b mag Hb Hfin. destruct (f_fields b Hb) as (Hm & He & _).
+  unfold f_is_finite in Hfin. unfold f_int_mag, f_mag_scaled.
+  revert Hm He Hfin. generalize (f_exp b) as e. generalize (f_man b) as m. intros m e Hm He Hfin.
+  assert (P1074 : 2 ^ 1074 <> 0) by (apply N.pow_nonzero; lia).
+  destruct (N.eqb_spec e 2047) as [|Hne]; [discriminate Hfin|].
+  destruct (N.eqb_spec e 0) as [E0|E0].
+  - intros H. assert (Hmag : mag = 0).
+    { destruct (N.eq_dec mag 0) as [|Hnz]; [assumption|]. exfalso.
+      assert (2 ^ 1074 <= mag * 2 ^ 1074).
+      { rewrite <- (N.mul_1_l (2 ^ 1074)) at 1. apply N.mul_le_mono_r. lia. }
+      assert (two52 < 2 ^ 1074) by (unfold two52; apply N.pow_lt_mono_r; lia). lia. }
+    subst mag. rewrite N.mul_0_l in H. subst m. reflexivity.
+  - rewrite N.shiftl_mul_pow2. destruct (N.leb_spec 1075 e) as [Hge|Hlt].
+    + intros H. f_equal. rewrite N.shiftl_mul_pow2.
+      assert (Hp : 2 ^ (e - 1) = 2 ^ (e - 1075) * 2 ^ 1074).
+      { rewrite <- (N.pow_add_r 2 (e - 1075) 1074). f_equal. lia. }
+      rewrite Hp, N.mul_assoc in H. now apply N.mul_cancel_r in H.
+    + intros H. rewrite N.land_ones.
+      assert (Hp : 2 ^ 1074 = 2 ^ (1075 - e) * 2 ^ (e - 1)).
+      { rewrite <- (N.pow_add_r 2 (1075 - e) (e - 1)). f_equal. lia. }
+      assert (PA : 2 ^ (e - 1) <> 0) by (apply N.pow_nonzero; lia).
+      assert (PB : 2 ^ (1075 - e) <> 0) by (apply N.pow_nonzero; lia).
+      rewrite Hp, N.mul_assoc in H. apply N.mul_cancel_r in H; [|assumption].
+      rewrite H, N.mod_mul by assumption. cbn [N.eqb].
+      f_equal. rewrite N.shiftr_div_pow2. now rewrite N.div_mul.
+Qed.
